@@ -8,7 +8,7 @@ RULE = ('random state trees with dense initial transitions (to any strict descen
         'with the reference model (no exit may run, no state entered twice). distinct_nontrivial = distinct '
         '(depth of start state, number of entries, number of inits) tuples')
 CASES = {'quick': 12000, 'thorough': 300000}
-BUDGET = {'quick': 40, 'thorough': 600}
+BUDGET = {'quick': 40, 'thorough': 300}
 REQUIRE = {'starts': 5000, 'deep_init_chains': 20, 'deep_starts': 100}
 ASSUME = ['generated charts are well-formed (inits target strict descendants)']
 
